@@ -350,6 +350,41 @@ func ruleG2(r *Run) {
 		r.Viol("open gate", fd.Pos(), "IOHandler never returns ErrBreaker: the breaker no longer rejects while open")
 		return
 	}
+	// a rejected call is not a failure of the downstream service: no defer that counts failures or
+	// stamps lastFailTime may be pending when the rejecting return runs
+	{
+		var pending ast.Node
+		ast.Inspect(fd.Body, func(n ast.Node) bool {
+			d, ok := n.(*ast.DeferStmt)
+			if !ok || d.Pos() > rej.Pos() {
+				return true
+			}
+			excludesRejection := false
+			ast.Inspect(d, func(m ast.Node) bool {
+				if id, ok := m.(*ast.Ident); ok && info.Uses[id] == errBreaker && errBreaker != nil {
+					excludesRejection = true // the literal tells the breaker's own error apart
+				}
+				return true
+			})
+			if excludesRejection {
+				return true
+			}
+			ast.Inspect(d, func(m ast.Node) bool {
+				if c, ok := m.(*ast.CallExpr); ok {
+					s := types.ExprString(c.Fun)
+					if (strings.HasPrefix(s, "atomic.Add") || strings.HasPrefix(s, "atomic.Store")) && len(c.Args) > 0 {
+						a := types.ExprString(c.Args[0])
+						if strings.HasSuffix(a, ".failCount") || strings.HasSuffix(a, ".lastFailTime") {
+							pending = d
+						}
+					}
+				}
+				return true
+			})
+			return true
+		})
+		r.Check(pending == nil, "rejected calls are not counted as failures", rej.Pos(), "the failure-accounting defer is registered after the open gate", "the defer that counts a failure and stamps lastFailTime is registered before the open gate, so it also runs for a call the breaker itself rejects (err = ErrBreaker): every rejected call refreshes lastFailTime and the breaker never recovers under steady traffic although the service is healthy")
+	}
 	isLoadOf := func(e ast.Expr, field string) bool {
 		e = stripConv(info, e)
 		call, ok := e.(*ast.CallExpr)
